@@ -27,9 +27,9 @@ type callRec struct {
 
 func TestVerifSingleFlight(t *testing.T) {
 	defer vrt.WriteReport()
-	bound := 2
+	bound := 3
 	if vrt.Thorough() {
-		bound = 3
+		bound = 4
 	}
 	idx := 0
 	for _, n := range []int{2, 3} {
